@@ -570,6 +570,13 @@ func (fr *Frame) applyContract(ct *Contract, fn *ssa.Function, name string, args
 			continue // input well-formedness: assumed inside the callee and listed there, not asked of callers
 		}
 		goal := c.safeEvalBool(e, r)
+		if c.unitContract != nil {
+			if why, ok := c.unitContract.AssumesPre[short]; ok {
+				c.assumeG(g, goal)
+				c.trustedUsed["precondition of "+short+" assumed at its call sites in "+c.unitName+" ("+why+"): "+r.Src] = true
+				continue
+			}
+		}
 		key := short + "." + clauseLabel(r, k)
 		n := c.preCount[key]
 		c.preCount[key] = n + 1
@@ -632,10 +639,41 @@ func (c *Ctx) havocModifies(e *Env, m string, st, pre *State, g *Term) {
 	if err != nil {
 		panic(specError{err.Error()})
 	}
+	// "cond ? target : nothing": the target may change only when cond holds in the pre-state (e.g. a field of an object
+	// that may be absent); only usable in contracts that are assumed (trusted / interface), the frame check rejects it
+	var cond *Term
+	if ce, ok := x.(*ECond); ok {
+		if id, ok := ce.B.(*EIdent); !ok || id.Name != "nothing" {
+			panic(specError{"conditional modifies must have the form cond ? target : nothing"})
+		}
+		cond = e.evalBool(ce.C)
+		x = ce.A
+	}
 	names, points := c.modTargets(e, x)
 	for i, n := range names {
 		if points[i] == nil {
-			c.heapHavoc(st, n)
+			old := c.heapGet(st, n)
+			nv := c.heapHavoc(st, n)
+			if cond != nil {
+				c.heapSet(st, n, tIte(cond, nv, old))
+			}
+			continue
+		}
+		if cond != nil {
+			old := c.heapGet(st, n)
+			idx := points[i]
+			inner := old
+			var chain []*Term
+			for _, ix := range idx {
+				chain = append(chain, inner)
+				inner = tSelect(inner, ix)
+			}
+			nv := c.fresh(n+".pt", inner.Sort)
+			var res *Term = nv
+			for k := len(idx) - 1; k >= 0; k-- {
+				res = tStore(chain[k], idx[k], res)
+			}
+			c.heapSet(st, n, tIte(cond, res, old))
 			continue
 		}
 		// point update: new = store(old, idx.., fresh)
@@ -852,7 +890,7 @@ func (fr *Frame) appendBuiltin(cc *ssa.CallCommon, args []Val, st *State, g *Ter
 		kk := intLit(int64(k))
 		c.assumeG(g, mk(SBool, fmt.Sprintf("(=> (< %d %s) (= (select %s (+ %s %d)) %s))", k, addLen.S, newArr.S, oldLen.S, k, srcElem(kk).S)))
 	}
-	c.heapSet(st, en, tStore(c.heapGet(st, en), r, newArr))
+	c.heapSet(st, en, c.sto(c.heapGet(st, en), r, newArr))
 	return tv(c.define("append.res", mk(SSlice, fmt.Sprintf("(mk-slice %s 0 (+ %s %s))", r.S, oldLen.S, addLen.S))))
 }
 
